@@ -58,7 +58,7 @@ struct Map {
 }
 impl Map {
     fn time(&self, r: i64) -> Time {
-        Time(self.base + (r - self.r0) * self.step)
+        Time((self.base as i128 + (r - self.r0) as i128 * self.step as i128) as i64)      // (the offset alone may exceed i64 under the wide maps)
     }
     fn val(&self, v: &Value) -> f32 {
         (rat(v) * 2f64.powi(self.scale_pow2)) as f32
@@ -676,7 +676,10 @@ fn main() {
         let (mut lo, mut hi) = (0i64, 0i64);
         ranks(&beh, &mut lo, &mut hi);
         for m in &maps {
-            let fits = |r: i64| (r - m.r0).checked_mul(m.step).and_then(|x| m.base.checked_add(x)).is_some();
+            let fits = |r: i64| {
+                let t = m.base as i128 + (r - m.r0) as i128 * m.step as i128;
+                t >= i64::MIN as i128 && t <= i64::MAX as i128
+            };
             if !(fits(lo) && fits(hi)) {
                 rep.count("maps_skipped_out_of_range", 1);
                 continue;
